@@ -269,6 +269,11 @@ func c17Command(rc *RunCtx, t *simrt.Tape) {
 	}
 	bit := t.Choose(8)
 	data := append([]byte(nil), image...)
+	if viaStdin && codec == 1 && N > 24 && t.Choose(3) == 2 {
+		// the whole 8-byte trailer (CRC and length) missing: the cut a decoder is most likely
+		// to take for a clean end of data
+		kind, k = fkTruncate, N-8
+	}
 	if kind == fkTruncate {
 		if codec == 5 && memberBoundary(fc.Text, k) {
 			rc.Probe("cut_between_gzip_members_is_a_valid_file")
@@ -307,6 +312,11 @@ func c17Command(rc *RunCtx, t *simrt.Tape) {
 			spec.StdinPipe = true
 			spec.StdinFailAfter = -1
 			transport = "stdin-kseq-pipe"
+		}
+		if t.Choose(3) == 2 {
+			// explicit input format on standard input
+			args = append(args, map[int]string{fmFasta: "--fasta", fmFastq: "--fastq"}[format])
+			transport += "-explicit-format"
 		}
 	} else {
 		if t.Choose(3) == 2 {
